@@ -338,7 +338,7 @@ def run(ctx):
     warnings.simplefilter('ignore')
     ctx.exhaustive = True
     ctx.rule = ('exhaustive grid: (own configured maximum, peer-announced maximum) over %d x %d boundary values '
-                '(0 = no limit .. 2^32-1) x {acceptor, acceptor whose limit is set per peer in the on_association_request hook, the storage entities StorageAE / ClientStorageAE, requestor} x data lengths {none, 1, f-1, f, f+1, 3f+1} around '
+                '(0 = no limit .. 2^32-1) x {acceptor, acceptor whose limit is set per peer in the on_association_request hook, the storage entities StorageAE / ClientStorageAE, requestor} x data lengths {none, 1, f-1, f, f+1, 3f+1} and a data-less message whose command set is longer than one fragment (Offending Element list), the Maximum Length sub-item first / last / in the middle of the user information, around '
                 'the fragment size the peer\'s value implies (capped at %d bytes); plus Hypothesis pairs; after real '
                 'negotiation through AssociationAcceptor.handle / request_association every message (data set given as bytes or as a file-like object, alternating) is sent with '
                 'Association.send; non-trivial = the two values differ or one is 0'
